@@ -20,7 +20,10 @@ def scenarios(tier):
     J = wfgen.join_shapes()
     for k in ('nested_inner_never_triggered', 'nested_inner_triggered',
               'jall_chain_inbound', 'jall_impossible_route',
-              'two_joins_same_inbound'):
+              'two_joins_same_inbound',
+              'inbound_two_parents_onerror_p1',
+              'inbound_two_parents_oncomplete_p1',
+              'inbound_two_parents_onerror_p2'):
         if k in J:
             P[k] = J[k]
     jobs = []
